@@ -54,7 +54,7 @@ def run(ctx, pid, clauses):
     ssat = ctx.need(ctx.tlc("Balance", "Balance.stickysat.cfg", timeout=600, name="stickysat"), "stickiness satisfiability")
     cases = os.path.join(ctx.scratch, "cases.ndjson")
     ncases, gstats = gen_cases(ctx, cases)
-    rc, out, outdir = ctx.go_test("^TestVerifBalance$", env={"VERIF_CASES": cases}, timeout=900)
+    rc, out, outdir = ctx.go_test("^TestVerifBalance$", env={"VERIF_CASES": cases}, timeout=900, only=["balance_*"])
     ctx.need_go(rc, out, "balance replay")
     trace = os.path.join(outdir, "trace.ndjson")
     summary = json.load(open(os.path.join(outdir, "summary.json")))
